@@ -19,7 +19,7 @@ def handle (toks : List String) : Except String String :=
       let n ← Tok.run Tok.nat rest
       srFromInt sr n
   | op :: _ =>
-    match Scc.handle toks <|> Interp.handle toks <|> G.handle toks <|> G.handleReplace toks <|> J.handle toks <|> Cj.handle toks <|> TD.handle toks <|> Fz.handle toks <|> Sem.handle toks <|> Ax.handle toks <|> Es.handle toks <|> Sv.handle toks <|> Hp.handle toks <|> Un.handle toks <|> Pipe.handle toks <|> Ms.handle toks <|> Bn.handle toks <|> Ei.handle toks <|> Nw.handle toks <|> Vt.handle toks <|> Rs.handle toks <|> Sd.handle toks <|> Sh.handle toks <|> Eq.handle toks <|> Ps.handle toks <|> Vt.handleT toks <|> It.handle toks <|> Wh.handle toks <|> Jw.handle toks <|> Pj.handle toks <|> Ve.handle toks <|> Mf.handle toks <|> Jl.handle toks with
+    match Scc.handle toks <|> Interp.handle toks <|> G.handle toks <|> G.handleReplace toks <|> J.handle toks <|> Cj.handle toks <|> TD.handle toks <|> Fz.handle toks <|> Sem.handle toks <|> Ax.handle toks <|> Es.handle toks <|> Sv.handle toks <|> Hp.handle toks <|> Un.handle toks <|> Pipe.handle toks <|> Ms.handle toks <|> Bn.handle toks <|> Ei.handle toks <|> Nw.handle toks <|> Vt.handle toks <|> Rs.handle toks <|> Sd.handle toks <|> Sh.handle toks <|> Eq.handle toks <|> Ps.handle toks <|> Vt.handleT toks <|> It.handle toks <|> Wh.handle toks <|> Jw.handle toks <|> Pj.handle toks <|> Ve.handle toks <|> Mf.handle toks <|> Jl.handle toks <|> Bw.handle toks with
     | some r => r
     | none => throw s!"unknown op {op}"
   | [] => throw "empty request"
